@@ -40,8 +40,10 @@ JudgeEntry(c, e, x) ==
 (* members where the case has several members to order                       *)
 SameAsSolo(c, e, x, solo) ==
   \/ x = solo
-  \/ /\ Nondet(c)          \* which member is met first may differ from call to call
-     /\ \/ e # "query"
-        \/ x.err.cls # "none" /\ solo.err.cls # "none"      \* another member may fail first, with another class
-        \/ x.err.cls = "none" /\ solo.err.cls = "none" /\ BagMatch(solo.items, x.items)
+  (* where Go picks the order of object members per call, another call may   *)
+  (* meet another member first: other items first, another failure, or (with *)
+  (* the failure suppressed) fewer items before it.  Whether THIS outcome is *)
+  (* one the specification permits for the call under some member order is   *)
+  (* decided for every distinct outcome by Trace_ObjectOuts (JudgeEntry).    *)
+  \/ Nondet(c)
 =============================================================================
